@@ -306,3 +306,55 @@ def source_of(entry: dict) -> ast.FunctionDef:
 
 
 DATE_RE = re.compile(r"\d{4}-\d{2}-\d{2}")
+
+
+# ---------------------------------------------------------------------------------
+# helper functions called by rules (module-level defs of _gettsim that are not DAG primitives)
+# ---------------------------------------------------------------------------------
+
+_NOT_HELPERS = {"piecewise_polynomial", "join_numpy", "min", "max", "abs", "float", "int", "bool", "sum", "any",
+                "all", "len", "sorted", "list", "dict", "zip", "iter", "next", "round", "range", "enumerate"}
+
+
+@functools.lru_cache(maxsize=None)
+def _parsed(path: str):
+    tree = ast.parse(Path(path).read_text(encoding="utf-8"))
+    defs: dict[str, list] = {}
+    for n in tree.body:
+        if isinstance(n, ast.FunctionDef):
+            defs.setdefault(n.name, []).append(n)
+    imports = {}
+    for n in tree.body:
+        if isinstance(n, ast.ImportFrom) and n.module and n.module.startswith("_gettsim"):
+            for a in n.names:
+                imports[a.asname or a.name] = (n.module, a.name)
+    return defs, imports
+
+
+def helpers_of(entry: dict) -> dict[str, ast.FunctionDef]:
+    """Module-level functions of the package that the rule calls by name, transitively (purely syntactic)."""
+    out: dict[str, ast.FunctionDef] = {}
+    root = source_of(entry)
+
+    def visit(fn_node, path):
+        defs, imports = _parsed(path)
+        for c in ast.walk(fn_node):
+            if not (isinstance(c, ast.Call) and isinstance(c.func, ast.Name)):
+                continue
+            name = c.func.id
+            if name in out or name in _NOT_HELPERS or name == root.name:
+                continue
+            if name in defs and len(defs[name]) == 1:
+                out[name] = defs[name][0]
+                visit(defs[name][0], path)
+            elif name in imports:
+                mod, orig = imports[name]
+                p = SRC.parent / (mod.replace(".", "/") + ".py")
+                if p.exists():
+                    d2, _ = _parsed(str(p))
+                    if orig in d2 and len(d2[orig]) == 1:
+                        out[name] = d2[orig][0]
+                        visit(d2[orig][0], str(p))
+
+    visit(root, entry["file"])
+    return out
